@@ -149,7 +149,7 @@ def write_replay(pid, name, payload):
 def match_known(pid, key, known):
     import re
     for k in known.get('findings', []):
-        if k.get('property') == pid and re.search(k['match'], key):
+        if (k.get('property') == pid or pid in k.get('also_reported_by', [])) and re.search(k['match'], key):
             return k
     return None
 
@@ -323,7 +323,11 @@ def write_evidence(pid, spec, tier, seed, vc, sym, rtc, real, known_hit, undecid
         cov.setdefault('distinct_nontrivial', discharged)
         cov.setdefault('rule', 'one case per obligation')
     # obligations refuted by a listed known finding are reported apart: they are not part of the proof claim
-    n_known = sum(1 for k, v in known_hit if v['key'].startswith(('sym:', 'vc:')))
+    # every failed obligation (one per path for VC) whose key a known finding covers
+    known_keys = {v['key'] for k, v in known_hit}
+    n_known = sum(1 for k, v in known_hit if v['key'].startswith('sym:'))
+    if vc:
+        n_known += sum(1 for o in vc['failed'] if 'vc:%s:%s' % (o.fn, o.name) in known_keys)
     if n_known and 'obligations' in cov:
         cov['obligations'] -= n_known
         cov['refuted_by_known_findings'] = n_known
